@@ -181,6 +181,7 @@ class SamplingEval(EvalBase):
     def _inner(self, policy, td):
         out = policy(
             td.clone(),
+            env=self.env,
             decode_type="sampling",
             num_starts=self.samples,
             temperature=self.temperature,
